@@ -407,26 +407,40 @@ func buildTable(c *hmain.Ctx, masks []*maskGen, events []hx.Sx) hx.Sx {
 		}
 	}
 	var rows []hx.Sx
-	for i, m := range masks {
-		if m.rx == nil {
-			continue
-		}
-		gs, ok := verifyGroups(m.groups, m.rx.NumSubexp())
-		if !ok || len(gs) == 0 {
-			continue
-		}
-		for _, v := range hx.SortedKeys(set) {
-			idxs := m.rx.FindAllSubmatchIndex([]byte(v), -1)
-			why := reWF(len(v), m.rx.NumSubexp(), idxs)
-			c.W.Oracle("re_wf: matches ascending and disjoint, groups inside their match or -1, nested or disjoint", why == "", fmt.Sprintf("%q on %q: %s", m.re, v, why))
-			rows = append(rows, hx.L(hx.I(i), hx.S(v), idxSx(idxs)))
-			if len(idxs) > 0 {
-				set[string(specMask([]byte(v), idxs, gs, m.modeK, m.maxCnt, m.word))] = true
+	done := map[string]bool{}
+	for round := 0; round < tableRounds; round++ {
+		for i, m := range masks {
+			if m.rx == nil {
+				continue
+			}
+			gs, ok := verifyGroups(m.groups, m.rx.NumSubexp())
+			if !ok || len(gs) == 0 {
+				continue
+			}
+			for _, v := range hx.SortedKeys(set) {
+				key := fmt.Sprintf("%d|%s", i, v)
+				if done[key] {
+					continue
+				}
+				done[key] = true
+				idxs := m.rx.FindAllSubmatchIndex([]byte(v), -1)
+				why := reWF(len(v), m.rx.NumSubexp(), idxs)
+				c.W.Oracle("re_wf: matches ascending and disjoint, groups inside their match or -1, nested or disjoint", why == "", fmt.Sprintf("%q on %q: %s", m.re, v, why))
+				rows = append(rows, hx.L(hx.I(i), hx.S(v), idxSx(idxs)))
+				if len(idxs) > 0 {
+					set[string(specMask([]byte(v), idxs, gs, m.modeK, m.maxCnt, m.word))] = true
+				}
 			}
 		}
 	}
 	return hx.L(rows...)
 }
+
+// how often buildTable goes over the masks.  1 = every mask sees the event's values and the outputs of the masks before
+// it (a value is processed once per Do).  The array-index stream lists several spellings of one array position ("1",
+// "+1", "01") in a global process list: the fast path then Digs the same element twice and the masks run on their own
+// output — that stream builds the table with 3 rounds.
+var tableRounds = 1
 
 // ---- random regexps from a small grammar --------------------------------------------------------------
 
@@ -923,7 +937,7 @@ func c17Gen(c *hmain.Ctx) {
 	}
 
 	// 3. whole events: several masks, process/ignore lists (never overlapping across lists), marks, rules
-	tree := func(stream string, overlap bool, n int) {
+	tree := func(stream string, overlap bool, n, minEv, maxEv int) {
 		for i := 0; i < n; i++ {
 			var masks []*maskGen
 			withLists := r.Chance(2, 3)
@@ -982,7 +996,7 @@ func c17Gen(c *hmain.Ctx) {
 				gaf, gav = hx.Pick(r, keyAlpha), randText(r, 3)
 			}
 			var events []hx.Sx
-			for k := r.Range(1, 2); k > 0; k-- {
+			for k := r.Range(minEv, maxEv); k > 0; k-- {
 				var e hx.Sx
 				if r.Chance(1, 10) {
 					e = randJSON(r, 2)
@@ -1041,9 +1055,9 @@ func c17Gen(c *hmain.Ctx) {
 			}
 		}
 	}
-	tree("events", false, 5000*c.Scale)
+	tree("events", false, 5000*c.Scale, 1, 2)
 	// 4. the known finding: a list entry under which another list has a longer entry
-	tree("fields-overlap", true, 300*c.Scale)
+	tree("fields-overlap", true, 300*c.Scale, 1, 2)
 
 	// 5. adversarial configurations: group numbers out of range / duplicated / too many / zero among
 	//    others, empty and whole-value matches, cut followed by another mask, marks that collide with
@@ -1090,11 +1104,22 @@ func c17Gen(c *hmain.Ctx) {
 		gaf := hx.Pick(r, []string{"", "a", "m"})
 		c.Do("adversarial", 1, c17Case(c, masks, gaf, "ab", nil, nil, events), true)
 	}
+
+	// 6. (after everything above, so that the older streams keep their cases for a given seed) histories of 3-12 events
+	//    on one multi-mask instance: the older streams stop at 2.  Exposes per-event state that survives Do: maskApplyCount
+	//    not zeroed (mask.go Do), a mark / metric of event k charged to event k+1, buffers.
+	tree("events-history", false, 350*c.Scale, 3, 12)
+	//    and the size / shape thresholds of notes/threshold-audit.txt item 31
+	c17Thresholds(c)
 }
 
 func main() {
+	// as cmd/file.d/file.d.go:97 and fd/file.d.go:100 set them in production (the library default pool is 128 nodes):
+	// decoding and the AddFieldNoAlloc of the marks then walk the 16/32/64 node-pool expansions
+	insaneJSON.StartNodePoolSize = 16
+	insaneJSON.DisableBeautifulErrors = true
 	logger.Level.SetLevel(zapcore.ErrorLevel) // cfg.ParseNestedFields warns about every nested / duplicate path
 	hmain.Run(&hmain.Prop{ID: "C17",
-		Rule: "exhaustive: the fixed regexps x every ordered subset of their groups x every value over the tier's alphabet/length x four modes; random regexps from a grammar (nested, alternated, optional, empty groups) x group subsets in every order x multi-byte / invalid UTF-8 text; whole events with 1-3 masks, global and per-mask process/ignore lists over nested objects and arrays, marks, match rules; adversarial configurations. Non-trivial = the regexp matched the value (value streams) / every whole-event case; distinct = distinct (sub-model, case) text.",
+		Rule: "exhaustive: the fixed regexps x every ordered subset of their groups x every value over the tier's alphabet/length x four modes; random regexps from a grammar (nested, alternated, optional, empty groups) x group subsets in every order x multi-byte / invalid UTF-8 text; whole events with 1-3 masks, global and per-mask process/ignore lists over nested objects and arrays, marks, match rules; adversarial configurations; threshold streams (values of 13-19 bytes / 1-5 KiB, long then short, on one instance; 3-12 events per instance; 13-21 selected groups; arrays of 10-25 elements with multi-digit and oddly spelled positions in the lists; roots of 13-24 fields with marks and field lists of 13-30 paths). Non-trivial = the regexp matched the value (value streams) / every whole-event case; distinct = distinct (sub-model, case) text.",
 		Gen:  c17Gen, Exec: c17Exec})
 }
